@@ -2,6 +2,7 @@ SPECIFICATION BSpec
 CONSTANTS
   Locked = FALSE
   Bodies <- BodiesOne
+  Modes <- OnlyAnsi
   TickMs <- Ticks1
   MaxTicks = 2
   MaxPre = 0
